@@ -361,6 +361,7 @@ def decide_board(spec, idx, tier, rng):
         except OracleInconclusive:
             r = None
         problems = []
+        known_d8 = []
         kinds = ["reverse_numbering", "reverse_lists", "rotate_labels", "random"]
         for kd in kinds:
             tf = make_transform(rng, gd, kd)
@@ -374,7 +375,9 @@ def decide_board(spec, idx, tier, rng):
                 o2 = boards_common.solve_staged(game2, prune, n, m)
                 if o2.status == "budget":
                     if boards_common.is_d8(o2):
-                        problems.append({"problem": "one presentation is solved, the other never stops (auxiliary quantity diverges)", "transform": kd, "prune": prune})
+                        # the open C11 mechanism, seen through two presentations: which tied action the reward step follows depends on
+                        # the transition order, and one choice closes a rewarded cycle for the auxiliary quantity
+                        known_d8.append({"problem": "one presentation is solved, the other never stops (auxiliary quantity diverges)", "transform": kd, "prune": prune})
                     continue
                 res["stats"]["pairs"] = res["stats"].get("pairs", 0) + 1
                 if o1.status != o2.status:
@@ -416,6 +419,10 @@ def decide_board(spec, idx, tier, rng):
         if problems:
             res.update(verdict="violated", what="board %s %s: %s" % (spec, name, problems[0]["problem"]), witness=problems[:3],
                        case={"board": list(spec), "game": name})
+        elif known_d8:
+            res.update(verdict="known", finding="aux-min-reach-reward-diverges", what="board %s %s: %s (transform %s, prune=%s)" % (
+                spec, name, known_d8[0]["problem"], known_d8[0]["transform"], known_d8[0]["prune"]), witness=known_d8[:3],
+                case={"board": list(spec), "game": name})
         elif not res["stats"].get("pairs"):
             res.update(verdict="skipped", what="no pair compared")
         results.append(res)
